@@ -12,8 +12,15 @@
   von_mises_fisher_mixture.py  VonMisesMixture.responsibilities
                           wl = np.exp(lwl.T - lwl.max(1)).T   -> ShiftMax   (lwl.mean(1) -> ShiftMean)
                        -> `src_vmf_shift`
+  bgmm.py  dkl_wishart  the whole arithmetic after the determinants, evaluated symbolically statement by
+                       statement, with the transcendental / LAPACK values as parameters:
+                          math.log(d1) -> LD1, math.log(d2) -> LD2, math.log(2) -> L2, lgc (parameter),
+                          the loop  lg_i += gammaln((a_i - i)/2); lw_i += psi((a_i - i)/2)  -> + G_i, + PS_i,
+                          np.trace(np.dot(B2, inv(B1))) -> TR
+                       -> `src_dkl_wishart (a1 a2 dim LD1 LD2 L2 lgc G1 G2 PS1 PS2 TR : Q) : Q`
 Anything else raises.
 """
+from fractions import Fraction
 import ast
 
 from . import register
@@ -51,6 +58,80 @@ def qexpr(n):
 
 def un(n):
     return ast.unparse(n)
+
+
+BGMM = "nipy/algorithms/clustering/bgmm.py"
+
+
+def func(tree, name):
+    for node in tree.body:
+        if isinstance(node, ast.FunctionDef) and node.name == name:
+            return node
+    raise Unsupported("function %s not found" % name)
+
+
+def wexpr(n, env):
+    if isinstance(n, ast.Constant) and isinstance(n.value, (int, float)) and not isinstance(n.value, bool):
+        f = Fraction(n.value)
+        return "(%d # %d)" % (f.numerator, f.denominator)
+    if isinstance(n, ast.Name):
+        if n.id in env:
+            return env[n.id]
+        raise Unsupported("dkl_wishart: unknown name %s" % n.id)
+    if isinstance(n, ast.UnaryOp) and isinstance(n.op, ast.USub):
+        return "(- %s)" % wexpr(n.operand, env)
+    if isinstance(n, ast.BinOp):
+        op = {ast.Add: "+", ast.Sub: "-", ast.Mult: "*", ast.Div: "/"}.get(type(n.op))
+        if op is None:
+            raise Unsupported("operator " + ast.dump(n.op))
+        return "(%s %s %s)" % (wexpr(n.left, env), op, wexpr(n.right, env))
+    if isinstance(n, ast.Call):
+        u = un(n)
+        table = {"math.log(d1)": "LD1", "math.log(d2)": "LD2", "math.log(2)": "L2",
+                 "np.trace(np.dot(B2, inv(B1)))": "TR"}
+        if u in table:
+            return table[u]
+    raise Unsupported("dkl_wishart: expression " + un(n))
+
+
+def dkl_wishart_expr(repo):
+    tree = ast.parse((repo / BGMM).read_text())
+    f = func(tree, "dkl_wishart")
+    body = [s for s in f.body if not (isinstance(s, ast.Expr) and isinstance(s.value, ast.Constant))
+            and not isinstance(s, (ast.ImportFrom, ast.Import))]
+    lines = [un(s) for s in body]
+    head = ["tiny = 1e-15", "if B1.shape != B2.shape:\n    raise ValueError('incompatible dimensions for B1 and B2')",
+            "dim = B1.shape[0]", "d1 = max(detsh(B1), tiny)", "d2 = max(detsh(B2), tiny)",
+            "lgc = dim * (dim - 1) * math.log(np.pi) / 4"]
+    if lines[:len(head)] != head:
+        raise Unsupported("dkl_wishart: unexpected prologue %s" % lines[:len(head)])
+    env = {"a1": "a1", "a2": "a2", "dim": "dim", "lgc": "lgc"}
+    loop_want = ["lg1 += gammaln((a1 - i) / 2)", "lg2 += gammaln((a2 - i) / 2)", "lw1 += psi((a1 - i) / 2)", "lw2 += psi((a2 - i) / 2)"]
+    seen_loop = False
+    ret = None
+    for st in body[len(head):]:
+        if isinstance(st, ast.Assign) and len(st.targets) == 1 and isinstance(st.targets[0], ast.Name):
+            env[st.targets[0].id] = wexpr(st.value, env)
+        elif isinstance(st, ast.AugAssign) and isinstance(st.target, ast.Name) and st.target.id in env:
+            op = {ast.Add: "+", ast.Sub: "-", ast.Mult: "*", ast.Div: "/"}.get(type(st.op))
+            if op is None:
+                raise Unsupported("dkl_wishart: augmented operator")
+            env[st.target.id] = "(%s %s %s)" % (env[st.target.id], op, wexpr(st.value, env))
+        elif isinstance(st, ast.For):
+            if seen_loop or un(st.target) != "i" or un(st.iter) != "range(dim)" or [un(b) for b in st.body] != loop_want or st.orelse:
+                raise Unsupported("dkl_wishart: unexpected loop")
+            for v, o in (("lg1", "G1"), ("lg2", "G2"), ("lw1", "PS1"), ("lw2", "PS2")):
+                if v not in env:
+                    raise Unsupported("dkl_wishart: %s not initialised before the loop" % v)
+                env[v] = "(%s + %s)" % (env[v], o)
+            seen_loop = True
+        elif isinstance(st, ast.Return):
+            ret = wexpr(st.value, env)
+        else:
+            raise Unsupported("dkl_wishart: statement " + un(st))
+    if ret is None or not seen_loop:
+        raise Unsupported("dkl_wishart: no return / loop")
+    return ret, [f.lineno, f.end_lineno]
 
 
 @register("GmmFrags.v", ["C13"])
@@ -105,6 +186,7 @@ def translate(repo):
         shift = "ShiftMean"
     else:
         raise Unsupported("responsibilities: shift line is `%s`" % body[1])
+    wret, wspan = dkl_wishart_expr(repo)
     out = ["(* GENERATED from %s and %s by harness/translate/gmmfrags.py - do not edit *)" % (GMM, VMF),
            "From Coq Require Import ZArith QArith.", "Open Scope Q_scope.", "",
            "(* GMM.bic l.%d-%d *)" % (i.lineno, i.end_lineno),
@@ -113,6 +195,8 @@ def translate(repo):
            "Inductive addcov_kind := PerAxis | AllAxes.",
            "Definition src_addcov_kind : addcov_kind := %s." % kind, "",
            "Inductive shift_kind := ShiftMax | ShiftMean.",
-           "Definition src_vmf_shift : shift_kind := %s." % shift, ""]
+           "Definition src_vmf_shift : shift_kind := %s." % shift, "",
+           "(* bgmm.dkl_wishart l.%d-%d *)" % tuple(wspan),
+           "Definition src_dkl_wishart (a1 a2 dim LD1 LD2 L2 lgc G1 G2 PS1 PS2 TR : Q) : Q :=", "  %s." % wret, ""]
     meta = {"source": [GMM, VMF], "bic_full": un(e_full), "bic_diag": un(e_diag), "addcov": kind, "vmf_shift": shift}
     return "\n".join(out) + "\n", meta
